@@ -1025,6 +1025,8 @@ def _math_prod(x, *a, **k):
 
 
 def _take(a, indices, axis=None, **kw):
+    if axis is not None and fz(axis) == 0 and isinstance(indices, Sym):
+        return Sym('gather', fz(a), indices)          # rows of `a` at the index vector: same as a[indices]
     return term('take', a, indices, axis=axis)
 
 
